@@ -55,7 +55,7 @@ def canon(v, depth=0):
     if t in (bool, int, str, bytes):
         return (t.__name__, v)
     if isinstance(v, (bool, int, float, str)):  # sub-primitives
-        return (t.__name__, v)
+        return (t.__name__, "nan" if isinstance(v, float) and v != v else v)
     if t in (list, tuple) or (isinstance(v, (list, tuple)) and not hasattr(v, "_fields")):
         return (t.__name__, tuple(canon(e, depth + 1) for e in v))
     if hasattr(v, "_fields") and isinstance(v, tuple):  # NamedTuple
@@ -146,6 +146,10 @@ def coerce_prim(kind, d):
             return (True, STR_TO_BOOL[d.lower()]) if d.lower() in STR_TO_BOOL else (False, None)
         if t is int:
             return True, bool(d)
+        return False, None
+    if kind == "float" and t is bool:
+        raise Unspecified("bool where float is expected under coercion")
+    if kind in ("int", "str") and t is bool:
         return False, None
     if kind in ("int", "float"):
         try:
@@ -257,6 +261,8 @@ class Prim(T):
         if cx.coerce:
             try:
                 ok, cv = coerce_prim(p, d)
+            except Unspecified:
+                raise
             except Exception:
                 raise Unspecified("coercion of exotic value")
             if ok:
@@ -721,7 +727,7 @@ class Ann(T):
             return r  # the value is not of the right JSON type: constraints are not evaluated
         d2 = d
         if cx.coerce and isinstance(r, Ok) and type(r.v[1]) in (bool, int, float, str) and r.v[0] in ("bool", "int", "float", "str") and type(d) in (bool, int, float, str):
-            d2 = r.v[1] if r.v[1] != "nan" else d  # constraints see the coerced value
+            d2 = float("nan") if r.v == ("float", "nan") else r.v[1]  # constraints see the coerced value
         cerrs = check_constraints(d2, self.cons)
         if isinstance(r, Ok) and not cerrs:
             return r
